@@ -343,6 +343,8 @@ func c17Run(r *core.Run) {
 								if first == op.Kind {
 									second = c17Op{other, 200, map[string]interface{}{"JSON": map[string]int{"x": 1}, "XML": c17Flat{A: "x"}, "Binary": []byte("x"), "PlainText": "x"}[other]}
 								}
+								worlds[si] = c17Build(o) // each double-render episode starts from a fresh instance
+								l.States++
 								worlds[si].double = first
 								worlds[si].op = second
 								func() {
@@ -439,6 +441,7 @@ func c17Replay(raw json.RawMessage) (bool, string) {
 						if first == op.Kind {
 							second = c17Op{other, 200, map[string]interface{}{"JSON": map[string]int{"x": 1}, "XML": c17Flat{A: "x"}, "Binary": []byte("x"), "PlainText": "x"}[other]}
 						}
+						w = c17Build(c.Opts)
 						w.double, w.op = first, second
 						func() {
 							defer func() { _ = recover() }()
